@@ -95,7 +95,7 @@ type Node struct {
 	st   *store.Store
 
 	applyDelay atomic.Int64 // nanoseconds slept before each applied write command
-	busy       atomic.Bool  // an asynchronous delivery round is in progress
+	busy       atomic.Int32 // asynchronous deliveries in progress
 }
 
 // Cluster is a running in-process cluster.
@@ -312,8 +312,8 @@ func (c *Cluster) pump() {
 		default:
 		}
 		for _, n := range c.Nodes {
-			if n.busy.Load() {
-				continue // an asynchronous delivery to this store is still running
+			if inflight := n.busy.Load(); inflight > 0 && (!c.async.Load() || inflight >= 8) {
+				continue // asynchronous deliveries to this store are still running
 			}
 			if !n.gate.TryRLock() {
 				continue
@@ -332,11 +332,17 @@ func (c *Cluster) pump() {
 				n.gate.RUnlock()
 			}
 			if c.async.Load() {
-				// stores run side by side (as with the real per-connection transport): a store
-				// that is busy applying does not hold the others back, its messages queue up
-				n.busy.Store(true)
+				// stores run side by side and a store takes deliveries concurrently (as with the
+				// real per-connection transport): a store that is busy applying does not hold
+				// the others back, and further messages are stepped into its raft node while
+				// its ready loop is still working
+				if len(msgs) == 0 && !tick {
+					n.gate.RUnlock()
+					continue
+				}
+				n.busy.Add(1)
 				go func(n *Node) {
-					defer n.busy.Store(false)
+					defer n.busy.Add(-1)
 					deliver(n)
 				}(n)
 				continue
